@@ -264,6 +264,12 @@ def generate(seed, tier):
             ops.append({'t': round(t_probe - r.uniform(0.2, 0.8), 3), 'op': 'packet', 'node': 'B',
                         'flow': {'family': 2, 'saddr': sc['meta']['b_addr'], 'daddr': addr, 'proto': 6, 'sport': 40000, 'dport': 7}})
         sc['meta']['own_half_open'] = True
+        if r.random() < 0.6:
+            # ... or with peers that answer IKE_SA_INIT and then fall silent: those IKE_SAs wait for the IKE_AUTH response (reference
+            # responders, sim/refpeer.py, muted after the first exchange)
+            ca_ = sc['nodes']['A']['conf']['to-b']
+            sc['mute_peers'] = [{'addr': a_, 'seed': r.randrange(2 ** 31), 'conf': {'to-b': dict(copy.deepcopy(ca_), my_addr=a_)}} for a_ in (q_addr, r_addr)]
+            sc['meta']['own_half_open'] = 'auth_pending'
     ops.append({'t': t_probe, 'op': 'call', 'name': 'cookie_probe', 'seed': r.randrange(2 ** 31)})
     ops.append({'t': t_honest, 'op': 'packet', 'node': 'A', 'flow': flow})
     ops.append({'t': round(t_honest + 6.0, 3), 'op': 'call', 'name': 'honest_check'})
@@ -306,6 +312,10 @@ def run(scenario):
                 self.rx.append((w.now, data, src))
         w.externals[scenario['meta']['q_addr']] = Sink()
         w.externals[scenario['meta']['r_addr']] = Sink()
+        for mp in scenario.get('mute_peers', []):
+            from sim.refpeer import RefPeer
+            RefPeer(w, mp['addr'], next(iter(configs.read_conf(mp['conf']).values())), mp['seed'],
+                    {'mute_after_init': True, 'cookie': False, 'latency': 0.005, 'nonce_len': 32}, name='Q' + mp['addr'][-1])
         def honest_check(w, op):
             if w.nodes['A'].state == 'running' and w.nodes['B'].state == 'running':
                 ctx['honest'] = data_plane_probe(w, 'A', 'B', scenario['probe_flow'])
